@@ -59,15 +59,8 @@ Section Analyses.
     let bwd := F (set_c s (set_nth c0 i (x - dth))) in
     (cdiff_div (nofZ 2 * radians deg2rad dth) fwd bwd, set_c s (set_nth c0 i x)).
 
-  (* scene.py 2928-2978; result table order [Cx; Cz; Cm]; returns (x_ac/l, z_ac/l, Cm_ac) and the state left behind *)
-  Definition aero_center (s : ast) (delta : T) : T * T * T * ast :=
-    let FM1 := F s in
-    let '(a0, b0, V0) := get_ae s in
-    let s0 := set_ae s (Some (a0 - delta)) (Some b0) (Some V0) in
-    let FM0 := F s0 in
-    let s2 := set_ae s0 (Some (a0 + delta)) (Some b0) (Some V0) in
-    let FM2 := F s2 in
-    let s3 := set_ae s2 (Some a0) (Some b0) (Some V0) in
+  (* scene.py 2954-2971: aerodynamic-centre point and moment from three result tables [Cx; Cz; Cm] at alpha0-delta, alpha0, alpha0+delta *)
+  Definition ac_point (FM0 FM1 FM2 : list T) (delta : T) : T * T * T :=
     let g (l : list T) (i : nat) := nth i l n0 in
     let d2 := delta * delta in
     let CA_a := (- g FM2 0 + g FM0 0) / (nofZ 2 * delta) in
@@ -79,7 +72,17 @@ Section Analyses.
     let den := CN_a * CA_a2 - CA_a * CN_a2 in
     let x := (CA_a * Cm_a2 - Cm_a * CA_a2) / den in
     let z := (CN_a * Cm_a2 - Cm_a * CN_a2) / den in
-    (x, z, g FM1 2 - x * g FM1 1 + z * g FM1 0, s3).
+    (x, z, g FM1 2 - x * g FM1 1 + z * g FM1 0).
+  (* scene.py 2928-2978; returns (x_ac/l, z_ac/l, Cm_ac) and the state left behind *)
+  Definition aero_center (s : ast) (delta : T) : T * T * T * ast :=
+    let FM1 := F s in
+    let '(a0, b0, V0) := get_ae s in
+    let s0 := set_ae s (Some (a0 - delta)) (Some b0) (Some V0) in
+    let FM0 := F s0 in
+    let s2 := set_ae s0 (Some (a0 + delta)) (Some b0) (Some V0) in
+    let FM2 := F s2 in
+    let s3 := set_ae s2 (Some a0) (Some b0) (Some V0) in
+    (ac_point FM0 FM1 FM2 delta, s3).
 
   (* scene.py 3955-3998: secant-type iteration on alpha; F returns [CL]; fuel = max_iterations *)
   Inductive tres := TOk (alpha : T) (s : ast) | TMaxIter.
@@ -100,5 +103,42 @@ Section Analyses.
           end
       end
     else Some (alpha, s).
+  (* scene.py 2521-2616: Newton iteration on (alpha, pitch control) with a finite-difference Jacobian.
+     F returns [CL; Cm_w; Cm]; residual = (CL - CL_des, Cm - Cm_des); ic = index of the pitch control. *)
+  Definition trim_res (s : ast) (CLd Cmd : T) : T * T := (nth 0 (F s) n0 - CLd, nth 2 (F s) n0 - Cmd).
+  Definition big (tol : T) (R : T * T) : bool := (tol <? nabs (fst R)) || (tol <? nabs (snd R)).
+  Variable solve2 : T -> T -> T -> T -> T -> T -> T * T.     (* np.linalg.solve on the 2x2 system: J00 J01 J10 J11 b0 b1 *)
+  Fixpoint pitch_trim_loop (fuel : nat) (s : ast) (ic : nat) (alpha flap : T) (R : T * T) (CLd Cmd relax tol : T)
+    : option (T * T * ast) :=
+    if big tol R then
+      match fuel with
+      | 0 => None
+      | Datatypes.S f =>
+          let dth := n1 / nofZ 2 in
+          let c0 := s_c s in
+          let x := nth ic c0 n0 in
+          let FMf := F (set_c s (set_nth c0 ic (x + dth))) in
+          let FMb := F (set_c s (set_nth c0 ic (x - dth))) in
+          let s0 := set_c s (set_nth c0 ic x) in
+          let dd := nofZ 2 * radians deg2rad dth in
+          let CL_d := (nth 0 FMf n0 - nth 0 FMb n0) / dd in
+          let Cm_d := (nth 1 FMf n0 - nth 1 FMb n0) / dd in
+          let '(a0, b0, _) := get_ae s0 in
+          let sa := set_ae s0 (Some (a0 + dth)) None None in
+          let sb := set_ae sa (Some (a0 - dth)) None None in
+          let CL_a := (nth 0 (F sa) n0 - nth 0 (F sb) n0) / dd in
+          let Cm_a := (nth 1 (F sa) n0 - nth 1 (F sb) n0) / dd in
+          let sr := set_ae sb (Some a0) (Some b0) None in
+          let '(d0, d1) := solve2 CL_a CL_d Cm_a Cm_d (- fst R) (- snd R) in
+          let alpha1 := alpha + degrees rad2deg d0 * relax in
+          let flap1 := flap + degrees rad2deg d1 * relax in
+          let s1 := set_c (set_ae sr (Some alpha1) None None) (set_nth (s_c sr) ic flap1) in
+          let R1 := trim_res s1 CLd Cmd in
+          match f with
+          | 0 => None                                   (* i == max_iter: MaxIterationError *)
+          | _ => pitch_trim_loop f s1 ic alpha1 flap1 R1 CLd Cmd relax tol
+          end
+      end
+    else Some (alpha, flap, s).
 End Analyses.
 Arguments ast T : clear implicits.
